@@ -141,6 +141,10 @@ def gen_client_plan(rng, prof=None):
         for _ in range(rng.randint(*p.get('client_sends', (0, 6)))):
             ops.append({'t': t0 + ticks(rng, 0.0, span), 'op': 'send',
                         'data': cpay.next()})
+        if rng.random() < p.get('p_send_burst', 0.15):
+            tb = t0 + ticks(rng, 0.3, span)
+            for _ in range(rng.choice([17, 18, 20, 33, 40])):
+                ops.append({'t': tb, 'op': 'send', 'data': cpay.next()})
         if rng.random() < p.get('p_client_disconnect', 0.5):
             ops.append({'t': t0 + ticks(rng, 0.05, span),
                         'op': 'disconnect',
